@@ -2,11 +2,11 @@ SPECIFICATION Spec
 CONSTANTS
   Sfs <- Sfs12
   ModelSessions = {1, 2}
-  Classes <- Classes6
+  Classes <- Classes5
   Downs <- Downs3
   Drops = {TRUE, FALSE}
   Refuses <- Refuses3
-  Fallbacks = {TRUE, FALSE}
+  Fallbacks = {TRUE}
   SessReads = {TRUE, FALSE}
   Cfgs <- CfgsAll
   Dev_S1_RefusedReconnectRaises = FALSE
